@@ -137,6 +137,12 @@ class ExprMixin:
             return self.class_value(n)
         if n == "Ellipsis":
             return SV(self.voc.ELLIPSIS, "any")
+        fn_ = self.resolve_function(file, n) if file else None
+        if fn_ is None and fr.kind == "spec":
+            cands = [f for k, f in self.repo.funcs.items() if k.endswith("::" + n)]
+            fn_ = cands[0] if len(cands) == 1 else None
+        if fn_ is not None:
+            return SV(None, "pyfunc", py=("func", fn_))
         # module-level constants of the defining module, or imported ones
         mod = self.resolve_global(file, n) if file else None
         if mod is not None:
@@ -146,6 +152,33 @@ class ExprMixin:
             if g is not None:
                 return self.global_const(g[0], n, g[1])
         return SV(None, "pyfunc", py=("name", n))
+
+    def module_file(self, file, modpath):
+        import os
+        level = len(modpath) - len(modpath.lstrip("."))
+        rest = modpath.lstrip(".")
+        base = os.path.dirname(file)
+        for _ in range(max(level - 1, 0)):
+            base = os.path.dirname(base)
+        if level == 0:
+            base = ""
+        cand_mod = os.path.join(base, *rest.split(".")) if rest else base
+        for cand in (cand_mod + ".py", os.path.join(cand_mod, "__init__.py")):
+            if cand in self.repo.files:
+                return cand
+        return None
+
+    def resolve_function(self, file, n, depth=0):
+        fi = self.repo.funcs.get(f"{file}::{n}")
+        if fi is not None:
+            return fi
+        imp = self.repo.module_imports.get(file, {}).get(n)
+        if imp and ":" in imp and depth < 4:
+            modpath, orig = imp.split(":")
+            mf = self.module_file(file, modpath)
+            if mf is not None:
+                return self.resolve_function(mf, orig, depth + 1)
+        return None
 
     def find_any_global(self, n):
         for f, consts in self.repo.module_consts.items():
@@ -186,10 +219,7 @@ class ExprMixin:
         sv = None
         try:
             lit = ast.literal_eval(value_ast)
-            if isinstance(lit, (bool, int, float, str)):
-                sv = self.ev_Constant(ast.Constant(lit), None, None)
-            elif isinstance(lit, (tuple, list)) and all(isinstance(x, str) for x in lit):
-                sv = SV(None, "pylist", py=("strs", list(lit)))
+            sv = self.lit_to_sv(lit)
         except Exception:
             pass
         if sv is None:
@@ -199,9 +229,25 @@ class ExprMixin:
                 cname = value_ast.func.id
                 self.global_facts.append(self.voc.ty(t) == self.voc.cls[cname])
                 pt = "obj:" + cname
+            if pt == "any" and name in self.side.attr_sorts:
+                pt = self.side.attr_sorts[name]
             sv = SV(t, pt, py=("global", file, name))
         self.globals_cache[key] = sv
         return sv
+
+    def lit_to_sv(self, lit):
+        v = self.voc
+        if lit is None or isinstance(lit, (bool, int, float, str)):
+            return self.ev_Constant(ast.Constant(lit), None, None)
+        if isinstance(lit, (tuple, list)):
+            items = [self.lit_to_sv(x) for x in lit]
+            if any(x is None for x in items):
+                return None
+            cur = v.tnil if isinstance(lit, tuple) else v.snil
+            for x in items:
+                cur = v.sapp(cur, self.box(x))
+            return SV(cur, "tuple" if isinstance(lit, tuple) else "list", py=("items", items))
+        return None
 
     # ------------------------------------------------------------------ operators
     def ev_BoolOp(self, node, st, fr):
@@ -468,6 +514,8 @@ class ExprMixin:
             x = z3.Const("x", v.Val)
             i, j = z3.Ints("i j")
             st.facts.append(z3.ForAll([x], v.shas(o, x) == v.has(sv.t, x), patterns=[v.shas(o, x), v.has(sv.t, x)]))
+            st.facts.append(z3.ForAll([x], z3.Implies(v.has(sv.t, x), z3.And(0 <= v.sidx(o, x), v.sidx(o, x) < v.slen(o), v.sat(o, v.sidx(o, x)) == x)),
+                                      patterns=[v.has(sv.t, x)]))
             st.facts.append(v.slen(o) == v.card(sv.t))
             st.facts.append(z3.ForAll([i, j], z3.Implies(z3.And(0 <= i, i < j, j < v.slen(o)), v.sat(o, i) != v.sat(o, j)),
                                       patterns=[z3.MultiPattern(v.sat(o, i), v.sat(o, j))]))
